@@ -187,9 +187,6 @@ def _alpha(drv: RegDriver, W: World) -> dict:
         p = {}
         for f in W.zi.prop_fields(c):
             val = getattr(o, f["n"])
-            if not f["init"]:
-                p[f["n"]] = 0 if val == 7 else 99
-                continue
             pool = W_pool(W, f)
             idx = [i for i, x in enumerate(pool) if type(x) is type(val) and x == val and repr(x) == repr(val)]
             p[f["n"]] = idx[0] if idx else 99
